@@ -356,3 +356,30 @@ Proof.
   intros Hp H. destruct (route_ok_sound _ _ _ _ _ _ _ H) as (r' & ls & Hc & He & Ht & Hg & _ & _ & Hf).
   rewrite (collapse_plain routed Hp) in Hc. injection Hc as <-. exists ls. auto.
 Qed.
+
+(* the reported swap map of an accepted certificate is a permutation of the placed physical qubits [0,n):
+   every placed qubit -- also one that holds a logical qubit the circuit never uses -- has an image among the
+   placed qubits, and two placed qubits never share an image *)
+Theorem route_ok_final_perm n orig routed init final g d :
+  route_ok n orig routed init final g d = true ->
+  length init = n /\
+  (forall p, p < n -> nth p final 0 < n) /\
+  (forall p q, p < n -> q < n -> nth p final 0 = nth q final 0 -> p = q).
+Proof.
+  intros H.
+  destruct (route_ok_sound _ _ _ _ _ _ _ H) as (r' & ls & _ & _ & _ & _ & _ & Hmf & Hf).
+  unfold route_ok in H. apply andb_true_iff in H as [H _]. apply andb_true_iff in H as [H0 _].
+  apply mm_ok_b_sound in H0. destruct H0 as (Li & _ & _ & Hi2).
+  change (l2p (mm_init init)) with init in Li, Hi2.
+  destruct Hmf as (_ & _ & Hm1 & _).
+  set (p2l0 := p2l (mm_init init)) in *.
+  assert (Hpre : forall p, p < n -> nth p p2l0 0 < n /\
+                 nth p final 0 = nth (nth p p2l0 0) (l2p (final_mm (mm_init init) ls)) 0).
+  { intros p Hp. destruct (Hi2 p Hp) as [Hk Hkp]. split; [exact Hk|].
+    rewrite Hf by (rewrite Li; exact Hk). rewrite Hkp. reflexivity. }
+  split; [exact Li|]. split.
+  - intros p Hp. destruct (Hpre p Hp) as [Hk ->]. apply (Hm1 _ Hk).
+  - intros p q Hp Hq E. destruct (Hpre p Hp) as [Hkp Ep]. destruct (Hpre q Hq) as [Hkq Eq].
+    rewrite Ep, Eq in E. apply (inv_on_inj n _ _ _ _ Hm1 Hkp Hkq) in E.
+    destruct (Hi2 p Hp) as [_ E1]. destruct (Hi2 q Hq) as [_ E2]. rewrite <- E1, <- E2, E. reflexivity.
+Qed.
